@@ -1,7 +1,44 @@
 import ZixModel.Model.Path
 import ZixModel.Spec.Cpp17Path
+import ZixModel.Lemmas.PathRelative
+/-! # C12 — join, lexically_relative and preferred agree with C++17 path operations
+
+Property theorems only; helper lemmas live in `ZixModel/Lemmas/PathRelative.lean`.
+Strings are NUL-free byte lists (`0 ∉ s`). -/
 namespace Zix.C12
 open Zix.Path
+
+/-- `zix_path_join(a, b)` is the text of C++17 `a / b`: b alone when it is absolute or a is empty,
+otherwise a, exactly one separator iff a has a filename, then b. -/
+theorem join_eq_cpp17_text (a b : List Nat) (ha : 0 ∉ a) (hb : 0 ∉ b) :
+    join (some a) (some b) = PathSpec.join a b := by
+  -- the NUL-freeness hypotheses are not needed for `join`
+  have _ := ha
+  have _ := hb
+  exact Rel.join_spec a b
+
+/-- NULL arguments behave as empty strings. -/
+theorem join_null (a b : Option (List Nat)) : join a b = join (some (a.getD [])) (some (b.getD [])) := by
+  cases a <;> cases b <;> rfl
+
+/-- The component iterator yields exactly the C++17 iteration sequence (root directory as one
+element whatever the number of separators, then the filenames, with a trailing empty element after
+a final separator). -/
+theorem iter_elements_eq_cpp17 (s : List Nat) (h0 : 0 ∉ s) :
+    (allFrames s).map (fun f => if f.state = .rootDir then [sep] else slice s f.range) = (PathSpec.parse s).elems :=
+  Rel.allFrames_map s h0
+
+/-- `zix_path_lexically_relative` is NULL exactly when C++17 `lexically_relative` is the empty path … -/
+theorem relative_null_iff_cpp17_empty (p b : List Nat) (hp : 0 ∉ p) (hb : 0 ∉ b) :
+    (relative p b).isNone ↔ (PathSpec.relative p b).isNone := by
+  rw [← Rel.rel_char p b hp hb]
+  cases relative p b <;> simp
+
+/-- … and otherwise names the same relative path (same element sequence). -/
+theorem relative_same_path (p b r : List Nat) (hp : 0 ∉ p) (hb : 0 ∉ b) (hr : relative p b = some r) :
+    some (PathSpec.parse r).elems = PathSpec.relative p b := by
+  rw [← Rel.rel_char p b hp hb, hr]
+  rfl
 
 /-- `zix_path_preferred` is the identity on POSIX (the only separator is the preferred one). -/
 theorem preferred_id_posix (s : List Nat) : preferred s = s := by
@@ -13,5 +50,9 @@ theorem preferred_id_posix (s : List Nat) : preferred s = s := by
     by_cases h : isSep c = true
     · simp only [h, if_true]; unfold isSep at h; simp at h; rw [h]
     · simp [h]
+
+/-! ## non-vacuity -/
+example : relative [47, 97, 47, 98] [47, 97, 47, 99, 47, 100] = some [46, 46, 47, 46, 46, 47, 98] := by decide
+example : relative [97] [47, 97] = none := by decide
 
 end Zix.C12
